@@ -101,6 +101,11 @@ def run(ctx):
             for f in st.closure():
                 if f[0] in ("ok", "notok") and is_call(f[1], CHECKER) and f[1][2] and f[1][2][0] != T and (mentions(f[1][2][0], SubC(U, "signed")) or (f[0] == "notok" and f[1][2][0] == U)):
                     (disc_ok if f[0] == "ok" else disc_failed).append(f)
+        if not disc_ok and not disc_failed:
+            # a predicate asked about the signed part said no, and its every "no" refutes the checker
+            for f in st.closure():
+                if f[0] == "ret" and f[2] is False and is_call(f[1]) and f[1][1].startswith("repo:") and f[1][2] and (f[1][2][0] == SubC(U, "signed") or mentions(f[1][2][0], SubC(U, "signed"))) and _no_means_not_delegating(eng, f[1]):
+                    disc_failed.append(f)
         compared = st.holds(("eq", name, ty)) or st.holds(("eq", ty, name))
         if disc_ok:
             checked_paths += 1
@@ -166,3 +171,47 @@ def entries_independent(ctx, rule):
         if bp.outcome.startswith("count") and not _forced_count(cube, ATOMS, spec):
             unjust += 1  # counted although the specification does not require (allow) it
     ctx.ob(rule, "entries-independent", fn_site(eng, m.sm).loc(), "each signature entry is counted or skipped on its own merits (%d loop-body paths, %d unjustified skips/aborts): removing non-counting entries cannot change the counted set" % (len(m.body), unjust), unjust == 0)
+
+
+REQUIRED_ENTRIES = ("type", "metadata_spec_version", "delegations", "expiration")
+
+
+def _no_means_not_delegating(eng, callterm):
+    """every False-returning path of the predicate holds evidence that its argument is not
+    (the signed part of) well-formed delegating metadata: the checker failed on an envelope built
+    from it, it is not a dict, or a required entry is missing"""
+    from sa.compare import _as_set_literal
+    from sa.terms import lit_const_values
+
+    hit = eng.callee_index.get(callterm[1])
+    if hit is None:
+        return False
+    fi, clsbind, order = hit
+    inline = frozenset(q for q, f in eng.prog.funcs.items() if f.mod.short == fi.mod.short and q.split(".")[-1].startswith("_"))
+    sm = eng.summary(fi, clsbind, inline)
+    x = P(sm.params[0])
+    falses = [p for p in sm.paths if p.kind == "return" and p.value == C(False)]
+    if not falses or any(p.kind == "return" and p.value not in (C(True), C(False)) for p in sm.paths):
+        return False
+
+    class _W:
+        def const_literal(self, g, _s=None):
+            return eng.const_literal(g[1][6:]) if g[0] == "global" and g[1].startswith("const:") else None
+
+    for p in falses:
+        ok = False
+        for f in p.facts:
+            if f[0] == "notok" and is_call(f[1], CHECKER) and f[1][2] and (f[1][2][0] == x or mentions(f[1][2][0], x)):
+                ok = True
+            elif f[0] == "nottype" and f[1] == x and "dict" in f[2]:
+                ok = True
+            elif f[0] == "nothas" and f[1] == x and f[2] in [C(k) for k in REQUIRED_ENTRIES]:
+                ok = True
+            elif f[0] == "notcmp" and f[1] == "<=" and is_call(f[3], "builtin:set") and f[3][2] == (x,):
+                lit = _as_set_literal(_W(), f[2], None)
+                vals = lit_const_values(lit) if is_lit(lit, "set") else None
+                if vals is not None and vals and set(vals) <= set(REQUIRED_ENTRIES):
+                    ok = True  # not (REQUIRED' <= set(x)): some required entry is missing
+        if not ok:
+            return False
+    return True
